@@ -16,6 +16,8 @@ use thiserror::Error;
 mod unification;
 pub(crate) use unification::Relation;
 use unification::{Error as UnificationError, unify_types};
+#[cfg(mimium_verif)]
+pub use unification::verif_unify;
 
 #[derive(Clone, Debug, Error)]
 #[error("Type Inference Error")]
